@@ -107,6 +107,19 @@ func c03Behaviours() []c03Behaviour {
 		st := st
 		bs = append(bs, c03Behaviour{fmt.Sprintf("bare-http-%d", st), func(c *mxCall, _ string) { c.RawReply = rawStatus(st, "text/plain", []byte("nope")) }})
 	}
+	// failure statuses without any body (what a proxy or a panicking server produces), and with a
+	// body that is declared compressed and inflates to nothing
+	for _, st := range []int{304, 401, 502, 503} {
+		st := st
+		bs = append(bs, c03Behaviour{fmt.Sprintf("bare-http-%d-no-body", st), func(c *mxCall, _ string) { c.RawReply = rawStatus(st, "", nil) }})
+	}
+	bs = append(bs, c03Behaviour{"bare-http-503-gzip-of-nothing", func(c *mxCall, _ string) {
+		c.RawReply = func(b *world.Backend, r *http.Request) *world.Reply {
+			rep := rawStatus(503, "application/json", wire.GzipCompress(nil))(b, r)
+			rep.Out.Header.Set("Content-Encoding", "gzip")
+			return rep
+		}
+	}})
 	for _, ct := range []string{"", "text/html", "application/", "application/x-unknown", "application/json"} {
 		ct := ct
 		bs = append(bs, c03Behaviour{"wrong-content-type-" + ct, func(c *mxCall, _ string) {
